@@ -147,6 +147,34 @@ pub fn set_pull_first(seed: u64, case: u64) -> bool {
 }
 
 thread_local! {
+    /// when set, every *other* local function of the module gets a function-exit probe (`nop`) before encoding: lowering them
+    /// adds one block type per distinct result list to the shared type table, in the order the functions are visited
+    pub static DECOY_EXITS: std::cell::Cell<bool> = const { std::cell::Cell::new(false) };
+}
+
+/// one case in four (derived from the case number, not from the case's own stream)
+pub fn set_decoy_exits(seed: u64, case: u64) -> bool {
+    let v = Rng::new(seed, "decoy-exits", case).chance(1, 4);
+    DECOY_EXITS.with(|c| c.set(v));
+    v
+}
+
+fn add_decoy_exits(m: &mut Module, target: FunctionID) {
+    if !DECOY_EXITS.with(|c| c.get()) {
+        return;
+    }
+    let n = m.functions.iter().count() as u32;
+    for f in 0..n {
+        if f == *target || !m.functions.is_local(FunctionID(f)) {
+            continue;
+        }
+        let mut fm = m.functions.get_fn_modifier(FunctionID(f)).unwrap();
+        fm.func_exit();
+        fm.inject(Operator::Nop);
+    }
+}
+
+thread_local! {
     /// when set, a probe is `i32.const k; call <f>` (the `sem` family's reporting probes) instead of `i32.const k; drop`
     pub static PROBE_CALL: std::cell::Cell<Option<u32>> = const { std::cell::Cell::new(None) };
 }
@@ -465,6 +493,7 @@ pub fn instrument(wat: &str, target: usize, nimp: usize, path: &str, plan: &[Ste
                 apply_iter(&mut it, fid, plan, true, &ops_cell);
             }
             let special = comp.modules[0].functions.get(fid).unwrap_local().instr_flag.has_special_instr();
+            add_decoy_exits(&mut comp.modules[0], fid);
             if PULL_FIRST.with(|c| c.get()) {
                 let _ = comp.modules[0].pull_side_effects();
             }
@@ -480,6 +509,7 @@ pub fn instrument(wat: &str, target: usize, nimp: usize, path: &str, plan: &[Ste
                 apply_modifier(&mut m, fid, plan, ntoks - 1, &ops_cell);
             }
             let special = m.functions.get(fid).unwrap_local().instr_flag.has_special_instr();
+            add_decoy_exits(&mut m, fid);
             if PULL_FIRST.with(|c| c.get()) {
                 let _ = m.pull_side_effects();
             }
@@ -681,6 +711,9 @@ pub fn run(ctx: &mut Ctx) {
         ctx.count(&format!("bodylen={}", (toks.len() / 5) * 5));
         if set_pull_first(ctx.seed, case) {
             ctx.count("side-effect-report-pulled-before-encode");
+        }
+        if set_decoy_exits(ctx.seed, case) {
+            ctx.count("function-exit-probes-on-the-other-functions");
         }
         let lowered = instrument(&wat, 0, nimp, path, &plan, toks.len(), nlocals_decl);
         ctx.case_line(&format!(
